@@ -1,10 +1,12 @@
 package chainh
 
 import (
+	"bytes"
 	"encoding/json"
 	"fmt"
 	"sort"
 	"strings"
+	"sync"
 
 	"github.com/bitcoin-sv/block-headers-service/domains"
 	"github.com/bitcoin-sv/block-headers-service/internal/chaincfg/chainhash"
@@ -390,6 +392,44 @@ func (r *Replayer) runQuery(k int, c *Concrete, q *Query) {
 		if !ok {
 			fail(string(q.R), string(body))
 			return
+		}
+		// Overlapping walks: the statement is about EVERY walk, also one that shares the server with other walks.  The page
+		// just validated is requested again from several goroutines at once, half of them asking for the other end of the
+		// chain in between; the store does not change, so every answer to this URL must be the validated one, byte by byte (every fifth page).
+		if (r.cur+k)%5 == 0 {
+			other := fmt.Sprintf("/api/v1/chain/merkleroot?batchSize=%d", a[0]+1)
+			if a[1] == -1 && exp.Last != -1 {
+				other = fmt.Sprintf("/api/v1/chain/merkleroot?batchSize=%d&lastEvaluatedKey=%s", a[0], expLast)
+			}
+			var wg sync.WaitGroup
+			var mu sync.Mutex
+			bad := ""
+			for g := 0; g < 6; g++ {
+				wg.Add(1)
+				go func(g int) {
+					defer wg.Done()
+					for i := 0; i < 25; i++ {
+						if g%2 == 1 {
+							r.S.HTTP("GET", other, nil, nil)
+							continue
+						}
+						code2, body2 := r.S.HTTP("GET", url, nil, nil)
+						if code2 != code || !bytes.Equal(body2, body) {
+							mu.Lock()
+							if bad == "" {
+								bad = fmt.Sprintf("%d %.400s", code2, body2)
+							}
+							mu.Unlock()
+							return
+						}
+					}
+				}(g)
+			}
+			wg.Wait()
+			if bad != "" {
+				fail(fmt.Sprintf("the same page while other walks are being served (%s): %.400s", other, body), bad)
+				return
+			}
 		}
 		// a key is a key: near misses of a stored root (other letter case, leading zeros dropped, one digit short) match no
 		// block and get the not-found answer, never a page
